@@ -6,6 +6,8 @@
 From Coq Require Import ZArith Bool List.
 From Verif Require Import Word Gen_consts Gen_dqstate Suspend_proofs Lane_iface.
 From Verif Require Import DqFields Gen_lanesites CLane CLaneJudge CLane_inv CLane_main.
+From Verif Require Import CLane_order.
+From Coq Require Import Sorted.
 Import ListNotations.
 Local Open Scope Z_scope.
 
@@ -118,3 +120,78 @@ Theorem C04_trace_judges_sound : forall W s, 2 <= W <= 4094 -> reach W s ->
   word_ok W (st s) = true /\ (forall t, lockh s = Some t -> bmode s = true -> owner_ok (st s) t = true).
 Proof. exact trace_judges_sound. Qed.
 Print Assumptions C04_trace_judges_sound.
+
+(* ---------------------------------------------------------------------------------------------------------------
+   3. order.  Every item carries an id (one counter for pushed and fast-path items, so ids of pushed items increase in
+   push order = the order of the exchanges on dq_items_tail).  The model logs ids: pushed, popped (taken off the list by
+   the drain-lock owner), started / finished (callout begins / returns).  acquired s i: i was taken off the list, or was
+   admitted by the successful compare-and-swap of a fast path (dispatch_sync, dispatch_barrier_sync, the dispatch_async
+   redirect) and never pushed. *)
+
+(* the log is tied to the program points: an item runs only after it was acquired and finishes only after it started;
+   acquired is stable *)
+Theorem C04_history_wellformed : forall W s, 2 <= W <= 4094 -> reach W s ->
+  (forall i, In i (started s) -> acquired s i) /\ (forall i, In i (finished s) -> In i (started s)) /\
+  (forall t i, runs (pcs s t) = Some i -> acquired s i /\ kinds s i = runs_barrier (pcs s t) /\
+                                          (in_call (pcs s t) = true -> In i (started s))).
+Proof. exact history_wellformed. Qed.
+Print Assumptions C04_history_wellformed.
+Theorem C04_acquired_stable : forall W s a s', step W s a s' -> forall i, acquired s i -> acquired s' i.
+Proof. exact acquired_stable. Qed.
+Print Assumptions C04_acquired_stable.
+
+(* FIFO: items leave the list in push order *)
+Theorem C04_fifo_pop_order : forall W s, 2 <= W <= 4094 -> reach W s ->
+  rev (pushed s) = rev (popped s) ++ map i_id (lst s) /\ StronglySorted Z.lt (rev (pushed s)).
+Proof. exact fifo_pop_order. Qed.
+Print Assumptions C04_fifo_pop_order.
+
+(* writer-lock order of queued items: i pushed before j, one of them a barrier: j is not taken off the list -- let alone
+   started -- before i has finished.  (Items before a barrier finish before it starts; items after a barrier start after
+   it has finished.) *)
+Theorem C04_barrier_orders_fifo : forall W s i j, 2 <= W <= 4094 -> reach W s ->
+  In i (pushed s) -> In j (pushed s) -> i < j -> kinds s i = true \/ kinds s j = true ->
+  (In j (popped s) \/ In j (started s)) -> In i (finished s).
+Proof. exact barrier_orders_fifo. Qed.
+Print Assumptions C04_barrier_orders_fifo.
+
+(* exclusion in terms of acquisition, fast paths included: while a barrier is acquired and unfinished every other
+   acquired item has finished *)
+Theorem C04_barrier_excludes_acquired : forall W s b j, 2 <= W <= 4094 -> reach W s ->
+  acquired s b -> kinds s b = true -> ~ In b (finished s) -> acquired s j -> j <> b -> In j (finished s).
+Proof. exact barrier_excludes_acquired. Qed.
+Print Assumptions C04_barrier_excludes_acquired.
+
+(* real-time order of acquisitions (what the fast paths guarantee: their order is the order of the successful
+   compare-and-swaps): whatever is acquired after a barrier was acquired, is acquired after that barrier finished; a
+   barrier is acquired only after everything acquired before it has finished *)
+Theorem C04_barrier_orders_later_items_wait : forall W s1 s2 b j, 2 <= W <= 4094 -> reach W s1 -> later W s1 s2 ->
+  acquired s1 b -> kinds s1 b = true -> acquired s2 j -> ~ acquired s1 j -> In b (finished s2).
+Proof. exact later_items_wait_for_barrier. Qed.
+Print Assumptions C04_barrier_orders_later_items_wait.
+Theorem C04_barrier_orders_barrier_waits : forall W s1 s2 i b, 2 <= W <= 4094 -> reach W s1 -> later W s1 s2 ->
+  acquired s1 i -> acquired s2 b -> kinds s2 b = true -> ~ acquired s1 b -> In i (finished s2).
+Proof. exact barrier_waits_for_earlier_items. Qed.
+Print Assumptions C04_barrier_orders_barrier_waits.
+
+(* the reader fast paths (dispatch_sync, dispatch_async redirect) are taken only when their tail test found the list
+   empty: everything pushed before that test is then already acquired, so the two theorems above order the fast-path
+   item after every barrier pushed earlier.  PARTIAL with respect to the full property: for the dispatch_barrier_sync
+   fast path (no tail test; _dispatch_queue_try_acquire_barrier_sync needs the idle word) the statement "an item whose
+   push has completed, wakeup included, keeps the word non-idle until it is taken off the list" is not proved here. *)
+Theorem C04_barrier_orders_fastpath_partial : forall W s t s', 2 <= W <= 4094 -> reach W s -> gstep W s t = Some s' ->
+  ((pcs s t = S_tail /\ pcs s' t = S_rsv 0) \/ (exists q ovr, pcs s t = A_tail false q ovr /\ pcs s' t = A_acq q ovr)) ->
+  forall x, In x (pushed s) -> acquired s x.
+Proof. exact tail_test_sees_all_acquired. Qed.
+Print Assumptions C04_barrier_orders_fastpath_partial.
+
+(* both hypotheses sets are satisfiable: a barrier (id 2) pushed behind two running readers (0, 1) and an async item (3)
+   pushed behind the barrier; first the barrier runs alone with 0 and 1 finished and 3 still queued, later 3 runs with
+   the barrier finished *)
+Example C04_ordering_nonvacuous :
+  (exists s, reach 4 s /\ pushed s = [3; 2] /\ popped s = [2] /\ kinds s 2 = true /\ kinds s 3 = false /\
+             started s = [2; 1; 0] /\ finished s = [1; 0] /\ in_barrier_callout (pcs s 5) = true /\
+             acquired s 2 /\ acquired s 0 /\ acquired s 1 /\ ~ acquired s 3) /\
+  (exists s, reach 4 s /\ pushed s = [3; 2] /\ kinds s 2 = true /\ pcs s 7 = R_incall 3 /\
+             started s = [3; 2; 1; 0] /\ finished s = [2; 1; 0]).
+Proof. exact ordering_nonvacuous. Qed.
